@@ -70,6 +70,8 @@
 (*   acct    [name -> [kind, start, end, lockup, vesting, ov, bal]]        *)
 (*           kind in {"vesting","plain","none"}; bal = native balance      *)
 (*   minLiq, enabled   module parameters                                   *)
+(* Histories with many tokens in circulation at once (identifiers of       *)
+(* different lengths, drained in any order): module LiquidVestingMany.      *)
 (* Block time is an argument of every message (args.t, seconds from the    *)
 (* scripted genesis time).  Amounts are decimal strings (BigNum); a period *)
 (* is [len |-> n, amt |-> [aISLM |-> "x"]] as in module Schedule.          *)
@@ -585,23 +587,29 @@ TryLiquid(h) == LiveDenoms(h) # {} \/ RandomElement(1..10) = 1
 
 \* drawn values are bound with \E x \in {expr}: a LET or an operator argument containing
 \* RandomElement would be re-evaluated at every use
+SimLiquidate ==
+    \E t \in {RandT(hist)} : \E from \in {RandFrom(t)} :
+       \E args \in {[from |-> from, to |-> SelfOr(from, 2), amt |-> RandAmt(LockedUp(from, t)), t |-> t]} :
+          Do("liquidate", args)
+SimTransfer ==
+    /\ TryLiquid(hist)
+    /\ \E i \in {RandDenom(hist)} : \E from \in {RandHolder(i)} :
+       \E args \in {[from |-> from, to |-> RandName(hist), denom |-> DenomId(i), amt |-> RandAmt(HeldOr1(i, from)), t |-> RandT(hist)]} :
+          Do("transfer", args)
+SimRedeemSome ==
+    /\ TryLiquid(hist)
+    /\ \E i \in {RandDenom(hist)} : \E from \in {RandHolder(i)} :
+       \E args \in {[from |-> from, to |-> SelfOr(from, 3), denom |-> DenomId(i), amt |-> RandAmt(HeldOr1(i, from)), t |-> RandT(hist)]} :
+          Do("redeem", args)
+\* everything the holder has (a full redeem when it is the only holder)
+SimRedeemAll ==
+    /\ TryLiquid(hist)
+    /\ \E i \in {RandDenom(hist)} : \E from \in {RandHolder(i)} :
+       \E args \in {[from |-> from, to |-> RandName(hist), denom |-> DenomId(i), amt |-> HeldOr1(i, from), t |-> RandT(hist)]} :
+          Do("redeem", args)
 SimNext ==
     /\ Len(hist) < MaxLen
-    /\ \/ \E t \in {RandT(hist)} : \E from \in {RandFrom(t)} :
-          \E args \in {[from |-> from, to |-> SelfOr(from, 2), amt |-> RandAmt(LockedUp(from, t)), t |-> t]} :
-             Do("liquidate", args)
-       \/ /\ TryLiquid(hist)
-          /\ \E i \in {RandDenom(hist)} : \E from \in {RandHolder(i)} :
-             \E args \in {[from |-> from, to |-> RandName(hist), denom |-> DenomId(i), amt |-> RandAmt(HeldOr1(i, from)), t |-> RandT(hist)]} :
-                Do("transfer", args)
-       \/ /\ TryLiquid(hist)
-          /\ \E i \in {RandDenom(hist)} : \E from \in {RandHolder(i)} :
-             \E args \in {[from |-> from, to |-> SelfOr(from, 3), denom |-> DenomId(i), amt |-> RandAmt(HeldOr1(i, from)), t |-> RandT(hist)]} :
-                Do("redeem", args)
-       \/ /\ TryLiquid(hist)
-          /\ \E i \in {RandDenom(hist)} : \E from \in {RandHolder(i)} :
-             \E args \in {[from |-> from, to |-> RandName(hist), denom |-> DenomId(i), amt |-> HeldOr1(i, from), t |-> RandT(hist)]} :
-                Do("redeem", args)
+    /\ (SimLiquidate \/ SimTransfer \/ SimRedeemSome \/ SimRedeemAll)
 \* a restart from the exported genesis: when a fully redeemed token has left a gap below a live one,
 \* otherwise one walk in ten
 GapBelowLive(h) == \E i \in DenomIdx(st), j \in DenomIdx(st) : i < j /\ ~st.denoms[i].exists /\ st.denoms[j].exists
